@@ -13,3 +13,7 @@ def check(ctx):
     _framing.entry_guards(ctx)
     from .c04 import start_guards
     start_guards(ctx)      # the start path of a framer is an entry too (first frame outline's guards)
+    # a frame that is cloned (aux .. as mine / as name, rear) keeps its before-enter conditions
+    ctx.rule("T6-guards", "Frame.clone copies the beacts (entry guards) of the original through addBeact")
+    from .c12 import clone_lists
+    clone_lists(ctx, "T6-guards", only=("beacts",))
